@@ -32,6 +32,11 @@ type RTRetryCallback func(data interface{}) error
 // Fail being called.
 var ErrNoMoreRetries = errors.New("no more retries")
 
+// ErrRetryPostponed returned by the retry callback means that the packet cannot
+// be resent right now for a legitimate reason (e.g. the peer is asleep): the
+// retry does not count and the callback is called again after retryDelay.
+var ErrRetryPostponed = errors.New("retry postponed")
+
 // NewRetryTransaction creates a new RetryTransaction.
 //
 // In each transaction step, if retryDelay time passes without Proceed, Success,
@@ -117,8 +122,11 @@ func (t *RetryTransaction) timeout() {
 		return
 	}
 	if err := t.retryCallback(t.Data); err != nil {
-		t.fail(err)
-		return
+		if err != ErrRetryPostponed {
+			t.fail(err)
+			return
+		}
+		t.retryNum--
 	}
 	t.restartTimer()
 }
